@@ -5,13 +5,13 @@ HERE = os.path.dirname(os.path.dirname(os.path.abspath(__file__)))
 
 CHECKS = {
  "C01": dict(level="exploration", technique="runtime monitoring: differential result oracle (NumPy shadow interpreter) over generated recipes on the real executors",
-   text="Every generated expression is computed by the real cubed code on real executors and its result compared element-wise with an independent NumPy evaluation; held = no disagreement on the executions listed in the evidence. The generator also draws one array for both operands of matmul/tensordot/vecdot/outer, stack inputs with equal block counts but different chunk sizes, negative axes and zero counts. Exploration is the right level: the input space is unbounded, so reach comes from generator diversity (shapes, chunkings, dtypes, compositions, executors), not enumeration.",
+   text="Every generated expression is computed by the real cubed code on real executors and its result compared element-wise with an independent NumPy evaluation; held = no disagreement on the executions listed in the evidence. The generator also draws one array for both operands of matmul/tensordot/vecdot/outer, stack inputs with equal block counts but different chunk sizes, negative axes and zero counts, and the checks C01/C12/C17 share a bounded-exhaustive parameter sweep (1032 single-operation recipes enumerating axes, axis orders, index forms, reshape splits/merges, Array.blocks selections for 1-3 dimensions). Exploration is the right level: the input space is unbounded, so reach comes from generator diversity (shapes, chunkings, dtypes, compositions, executors), not enumeration.",
    note="Trusts NumPy as reference and the harness's own recipe interpreters; geometries beyond the generator's bounds and executors not installed (dask, lithops, ...) are not observed.", ref="3/C01"),
  "C02": dict(level="exploration", technique="runtime monitoring: differential oracle (same recipe computed unoptimised vs under each optimiser setting; integers exact, floats within 16 ulp) + read-back of requested arrays from storage",
-   text="Each generated DAG is executed by the real code unoptimised and under default/multiple-input/legacy/fuse-all/fuse-only optimisers with random always/never-fuse subsets; requested arrays must be identical (floats within 16 ulp: NumPy's SIMD functions are not bit-reproducible across layouts) and present in storage. A third of the recipes also save a requested array with a lazy store/to_zarr into a path or an existing array of equal/finer/coarser/unrelated chunking and request a consumer of the stored array; the target is read back with plain zarr. Held = no difference on the (recipe, optimiser) pairs listed.",
+   text="Each generated DAG is executed by the real code unoptimised and under default/multiple-input/legacy/fuse-all/fuse-only optimisers with random always/never-fuse subsets; requested arrays must be identical (floats within 16 ulp: NumPy's SIMD functions are not bit-reproducible across layouts) and present in storage. A third of the recipes also save a requested array with a lazy store/to_zarr into a path or an existing array of equal/finer/coarser/unrelated chunking and request a consumer of the stored array; the target is read back with plain zarr; a 'castchain' family draws single-input chains ending in a dtype-changing operation (what the legacy map fusion collapses). Held = no difference on the (recipe, optimiser) pairs listed.",
    note="Reference is cubed's own unoptimised run (a common-mode error in both is C01's business). Memory refusals under fusion-forcing optimisers are allowed by the property and not judged.", ref="3/C02"),
  "C03": dict(level="exploration", technique="runtime monitoring of allocations: tracemalloc around every task (one at a time under the harness executor, second run of each plan, excess re-measured up to 5 times), phase-resolved by wrapping zarr.Array.__getitem__/__setitem__, judged against the finalized plan's projected_mem",
-   text="A table of 46 programs covering every operation family at data-dominated chunk sizes, five geometries, three dtypes, fused/unfused, compressor None/default: every task's traced peak must stay within its operation's projected memory. Three open, mechanism-keyed findings (compressed storage buffers; previous block alive in multi-block reads; undeclared function temporaries) are matched by configuration + producing function + segment kind + ratio ceiling; two thirds of the budget run without a compressor where only the two narrower findings can match.",
+   text="A table of 97 programs (each run at least twice per quick tier) covering every operation family at data-dominated chunk sizes, five geometries, three dtypes, fused/unfused, compressor None/default: every task's traced peak must stay within its operation's projected memory. Three open, mechanism-keyed findings (compressed storage buffers; previous block alive in multi-block reads; undeclared function temporaries) are matched by configuration + producing function + segment kind + ratio ceiling; two thirds of the budget run without a compressor where only the two narrower findings can match.",
    note="tracemalloc does not see C-level allocations inside codecs; an under-projection smaller than an operation's slack is invisible (maximum observed ratio per program is in the evidence).", ref="3/C03"),
  "C04": dict(level="exploration", technique="runtime monitoring at the admission boundary: wrapping executor entry counter + store tracer + work-directory snapshot around compute/store/to_zarr, judged against the finalized plan's own per-op projected memory at allowed = P-1, P, P+1; post-condition wrappers (icontract on fuse, hand-written on the varargs fuse_multiple) for fused projected memory",
    text="For generated programs under both optimiser settings and several reserved_mem values the budget is set just below, at and above the plan's own maximum projected memory; an over-budget plan must be refused with no executor entry, no store mutation and no new file (eager and lazy store forms included); a plan within budget must not get the memory error; the default optimiser must not turn a fitting plan into a non-fitting one; fused ops must report at least the memory of the ops they replace. 30% of the recipes end in f(b, b) and the budget at which the unoptimised plan just fits is probed as well.",
@@ -26,7 +26,7 @@ CHECKS = {
    text="Real executors run generated DAGs under compute_arrays_in_parallel on/off, batch sizes and worker counts while every chunk set is delayed by a seeded latency at the store coroutine; no read of a produced array may be called before the first write of that chunk - or of any chunk of that array - returned, or before all arrays were created. Each shard also runs 'wide' plans whose operations have 1050-1500 tasks in flight at once with slow tail writes. Held on the interleavings actually produced (count reported); 'all interleavings' is restated as those observed.",
    note="Clock: time.monotonic in all processes. Interleavings not produced by the injected delays are not judged. Shown to fire (243 violations in one quick run) when topological generations are merged.", ref="3/C07"),
  "C08": dict(level="fault_enumeration", technique="runtime monitoring on virtual time: the real async_map_unordered driven by scripted futures (outcome and completion time per (input, submission), simultaneous completions in both handling orders); invariants on deliveries/submissions/raises; plus fault-injected retry wrapper and end-to-end storage faults",
-   text="All single-special-input scenarios over n in {1,2,3,10,11,12,13,25} (sampled scenarios also use 1001-2600 inputs) x use_backups x batch sizes x original/backup outcomes are enumerated (pairs in thorough, random triples sampled); the scheduler must deliver each input once, never drop or double-deliver, raise only an input's own error when no twin succeeded or is pending, submit at most twice, never hang (virtual-time bound). Retry budget checked on the real thread pool wrapper and end to end with OSError injected at a chunk read.",
+   text="All single-special-input scenarios over n in {0,1,2,3,10,11,12,13,25} (sampled scenarios also use 1001-2600 inputs) x use_backups x batch sizes x original/backup outcomes are enumerated (pairs in thorough, random triples sampled); the scheduler must deliver each input once, never drop or double-deliver, raise only an input's own error when no twin succeeded or is pending, submit at most twice, never hang (virtual-time bound). Retry budget checked on the real thread pool wrapper and end to end with OSError injected at a chunk read.",
    note="'Never hangs' is restated as bounded virtual time + the loop never idling with work outstanding. The end-to-end budget is checked on ThreadsExecutor and (since fix 4cf1bdb) ProcessesExecutor.", ref="3/C08"),
  "C09": dict(level="fault_enumeration", technique="runtime monitoring with injected crashes at every task boundary and every data-chunk write (store tracer raises), then compute(resume=True) on real executors under the store tracer and a recording callback; real os._exit crashes resumed from a fresh process are sampled",
    text="For each small program (40% of them saving their requested arrays, and sometimes an intermediate, to user paths with lazy store/to_zarr) every crash point at task and chunk-write granularity is enumerated (sampled above the cap); the resumed run must refuse up front or reproduce the uninterrupted values, must not delete or change any chunk file that existed after the crash, must not re-execute operations that had completed (except create-arrays / 0-d outputs) and must not skip incomplete ones.",
@@ -35,7 +35,7 @@ CHECKS = {
    text="Histories exercise the real API in arbitrary order, in particular storing arrays that other pool members were derived from, lazily and eagerly, into new and existing targets, and computing with resume/optimisation/executor variations (incl. the motif compute / compute(resume) / store / compute(resume)); held = every probe equalled the shadow and no input or earlier target changed, on the histories listed.",
    note="Values via NumPy shadow; 'unchanged' via blake2 digests of every file of a directory. Explicit refusals (ValueError/TypeError/NotImplementedError) while deriving or storing are allowed.", ref="3/C10"),
  "C11": dict(level="exploration", technique="runtime monitoring: sentinel-prefilled targets read back with plain zarr and compared with a NumPy paste model; store trace inspected for writes before a rejection",
-   text="The call-shape matrix (source kind x target kind x region kind incl. misaligned, wrong-shape and overhanging regions x store/to_zarr x eager/lazy x pair lists x executor) is sampled with random geometry in each cell; 30% of the calls compute the source before storing it; every accepted call must leave exactly 'sentinel with the source pasted into the region' in every target; a rejected call must not have written to the target.",
+   text="The call-shape matrix (source kind x target kind x region kind incl. misaligned, wrong-shape and overhanging regions, and aligned regions spelled with open ends, negative bounds, an explicit step of 1 or - to be refused up front - a step of 2 x store/to_zarr x eager/lazy x pair lists x executor) is sampled with random geometry in each cell; 30% of the calls compute the source before storing it; every accepted call must leave exactly 'sentinel with the source pasted into the region' in every target; a rejected call must not have written to the target, and a call must not fail after the executor was entered.",
    note="Sentinel value must not occur in source data (harness-controlled). Targets are local directory stores.", ref="3/C11"),
  "C12": dict(level="exploration", technique="runtime monitoring: block-write hook (value shape vs region shape for every block written by every task) + declared-vs-computed-vs-stored metadata comparison",
    text="All block writes of generated plans (unoptimised so that every intermediate is written, and optimised) are observed at zarr.Array.__setitem__; a value whose shape differs from its region is a silent broadcast. Declared shape/dtype/chunks are compared with the computed result and with the backing Zarr array's metadata.",
@@ -55,10 +55,10 @@ CHECKS = {
  "C17": dict(level="exploration", technique="runtime monitoring: exception type and phase (build / plan / after executor entry, decided by a wrapping executor's entry counter) for recipes NumPy can evaluate",
    text="Generated expressions biased to unsupported corners are built, planned and executed; any exception must be ValueError/TypeError/NotImplementedError/IndexError raised before the executor is entered. Held = no other type and no mid-run failure on the runs listed, apart from the open known finding about zero-length dimensions (half of the budget cannot reach it).",
    note="Fault-free runs only. Exceptions with no cubed frame during recipe construction are harness errors (inconclusive).", ref="3/C17"), "C18": dict(level="exploration", technique="runtime monitoring: every multi-array public entry point called with arrays whose Specs differ in exactly one field (both argument orders), outcome and returned plans inspected; icontract post-condition on convert_to_bytes against an exact Fraction parser; plan budgets compared with the Spec",
-   text="Entry points x 7 spec fields x 2 orders are enumerated completely every run (the table is cross-checked against signature introspection of the public namespaces); arrays that take their Spec from cubed.config (8 fields differing alone x both creation orders) are checked the same way and against the configured values; tens of thousands of size literals (realistic and extreme strata, malformed and non-whole ones) are parsed by the real code and by an exact reference.",
+   text="Entry points x 7 spec fields x 2 orders are enumerated completely every run (the table is cross-checked against signature introspection of the public namespaces); arrays that take their Spec from cubed.config (8 fields differing alone x both creation orders) are checked the same way and against the configured values; spec-lifetime histories (a distinct Spec equal to a long-lived one is combined with it, dropped and garbage-collected, then a differing Spec is created and combined, 12 rounds per entry point x field) must be refused every time; tens of thousands of size literals (realistic and extreme strata, malformed and non-whole ones) are parsed by the real code and by an exact reference.",
    note="Entry-point enumeration is complete for the functions listed in the evidence; literal space is sampled. Functions allowed to accept (broadcast_arrays, meshgrid, take/index with an array) are checked not to combine both inputs in any returned plan.", ref="3/C18"),
  "C19": dict(level="exploration", technique="runtime monitoring: differential outcomes (accepted / type+phase of refusal / values) of one recipe under resource-configuration variants, compared pairwise with the explicit-default variant, plus NumPy",
-   text="Every generated expression is built and computed under the global default config (spec=None), an explicit equal Spec, another work_dir, an intermediate_store, compressor None/explicit, reserved_mem 0, executor named in the Spec and a larger allowed_mem; acceptance and bit-exact values must agree. Memory-tight rechunks with rectilinear intermediate grids are additionally computed with threads and processes named in the Spec.",
+   text="Every generated expression is built and computed under the global default config (spec=None), an explicit equal Spec, another work_dir, an intermediate_store, compressor None/explicit, reserved_mem 0, executor named in the Spec and a larger allowed_mem; acceptance and bit-exact values must agree. Memory-tight rechunks with rectilinear intermediate grids are additionally computed with threads and processes named in the Spec, and fusion trees are computed under Specs with the same memory for array data but different reserves (allowed = D + R, reserved = R) at budgets D where the plan is tight.",
    note="Allowed memory is ample in the recipe part (so admission never differs legitimately) and equal across variants in the executor matrix; machine-memory checks of the threads executor are kept satisfiable.", ref="3/C19"),
  "C20": dict(level="exploration", technique="runtime monitoring across processes: arrays built in a child process are shipped with cloudpickle and computed/combined in a receiver whose name counters are set to chosen values; NumPy oracle",
    text="Shipped arrays are computed alone, after a same-process round trip, as left and right operand with locally built arrays, and with arrays derived from themselves, for receivers that have created 0..k arrays (names overlapping the child's or beyond them). The open finding (name collisions) is matched only when names really coincide; the disjoint stratum cannot reach it.",
